@@ -54,17 +54,18 @@ def check_doc(data, expected, has_err, legend, class_table, kw_default):
 
 def run_batch(docs):
     """docs: list of texts.  One server process: open the first, change to each next one, requesting the
-    tokens after every edit (an edit history).  Returns (legend, [data|None|'NO-RESPONSE'...], rc)."""
+    tokens after every edit (an edit history).  The two equivalent spellings of the document's URI alternate between the
+    notifications and the requests (a message addresses a document, however its URI is spelled).  Returns (legend, [data|None|'NO-RESPONSE'...], rc)."""
     msgs = []
     n = 0
     for i, t in enumerate(docs):
         n += 1
         if i == 0:
-            msgs.append(lspdrv.m_open(lspdrv.URI[1], t, n))
+            msgs.append(lspdrv.m_open(lspdrv.uri_of(1, n), t, n))
         else:
-            msgs.append(lspdrv.m_change(lspdrv.URI[1], [t], n))
+            msgs.append(lspdrv.m_change(lspdrv.uri_of(1, n), [t], n))
         n += 1
-        msgs.append(lspdrv.m_semtok(n, lspdrv.URI[1]))
+        msgs.append(lspdrv.m_semtok(n, lspdrv.uri_of(1, n + i)))
     msgs += [lspdrv.m_shutdown(n + 1), lspdrv.M_EXIT]
     r = lspdrv.run_server(msgs, timeout=60)
     obs = lspdrv.observe(r["frames"])
